@@ -35,7 +35,82 @@ func calleeKey(info *types.Info, call *ast.CallExpr) (string, *types.Signature, 
 	return "", nil, nil
 }
 
+func (e *Eng) anchorClauses(call *ast.CallExpr) ([]AtClause, string) {
+	if e.con == nil || len(e.con.At) == 0 {
+		return nil, ""
+	}
+	text := e.srcFull(call)
+	var out []AtClause
+	if cls, ok := e.con.At[text]; ok {
+		e.con.atUsed[text] = true
+		out = append(out, cls...)
+	}
+	if ord, ok := e.callOrd[call]; ok {
+		k := fmt.Sprintf("%s#%d", text, ord)
+		if cls, ok := e.con.At[k]; ok {
+			e.con.atUsed[k] = true
+			out = append(out, cls...)
+		}
+	}
+	return out, text
+}
+
+// indexCalls numbers the calls of the function by normalised source text, in source order.
+func (e *Eng) indexCalls() {
+	e.callOrd = map[*ast.CallExpr]int{}
+	seen := map[string]int{}
+	ast.Inspect(e.fn.Body, func(n ast.Node) bool {
+		if c, ok := n.(*ast.CallExpr); ok {
+			t := e.srcFull(c)
+			seen[t]++
+			e.callOrd[c] = seen[t]
+		}
+		return true
+	})
+}
+
+func (e *Eng) callsiteClauses(key string) []CallsiteClause {
+	if e.con == nil {
+		return nil
+	}
+	var out []CallsiteClause
+	for _, c := range e.con.Callsites {
+		if c.Callee == key || strings.HasSuffix(key, "."+c.Callee) || strings.HasSuffix(key, ")."+c.Callee) || strings.HasSuffix(key, ":"+c.Callee) {
+			out = append(out, c)
+		}
+	}
+	return out
+}
+
 func (e *Eng) evalCall(st *State, call *ast.CallExpr) []*Val {
+	e.lastArgs = nil
+	res := e.evalCallInner(st, call)
+	if st.dead || e.con == nil || len(e.con.At) == 0 {
+		return res
+	}
+	cls, _ := e.anchorClauses(call)
+	myArgs := e.lastArgs
+	for _, c := range cls {
+		e.lastArgs = myArgs
+		if c.Kind == "ghost" {
+			env := e.specEnvFromState(st)
+			for i, r := range res {
+				env[fmt.Sprintf("callres%d", i)] = r
+			}
+			for i, a := range e.lastArgs {
+				env[fmt.Sprintf("arg%d", i)] = a
+			}
+			g, ok := e.ghosts[c.Name]
+			if !ok {
+				panic("unknown ghost variable " + c.Name)
+			}
+			st.vars[g] = e.evalSpec(st, c.Expr, env, e.oldEnv)
+		}
+	}
+	return res
+}
+
+func (e *Eng) evalCallInner(st *State, call *ast.CallExpr) []*Val {
 	fun := ast.Unparen(call.Fun)
 	// conversion?
 	if tv, ok := e.info.Types[fun]; ok && tv.IsType() {
@@ -47,24 +122,34 @@ func (e *Eng) evalCall(st *State, call *ast.CallExpr) []*Val {
 			return e.evalBuiltin(st, id.Name, call)
 		}
 	}
-	key, sig, recvExpr := calleeKey(e.info, call)
-	if e.con != nil && e.con.At != nil {
-		if cls, ok := e.con.At[e.srcFull(call)]; ok {
-			defer func(cls []AtClause) {
-				for _, c := range cls {
-					if c.Kind == "ghost" {
-						st.vars[e.ghosts[c.Name]] = e.evalSpec(st, c.Expr, e.specEnvFromState(st), e.oldEnv)
-					}
-				}
-			}(cls)
-			for _, c := range cls {
-				if c.Kind == "requires" {
-					g := e.evalSpec(st, c.Expr, e.specEnvFromState(st), e.oldEnv)
-					e.oblige(st, "at", e.srcFull(call)+" requires "+c.Expr.String(), g.T, call.Pos())
-				}
+	// immediately-invoked function literal: inline
+	if fl, ok := fun.(*ast.FuncLit); ok && len(call.Args) == 0 && fl.Type.Results == nil {
+		saved := e.exits
+		savedRes := e.results
+		e.exits = nil
+		e.results = nil
+		end := e.execBlock(st.clone(), fl.Body.List)
+		outs := []*State{end}
+		var keep []Exit
+		for _, x := range e.exits {
+			if x.Kind == ExitReturn {
+				outs = append(outs, x.St)
+			} else {
+				keep = append(keep, x)
 			}
 		}
+		e.exits = append(saved, keep...)
+		e.results = savedRes
+		m := e.merge(outs)
+		if m == nil {
+			st.dead = true
+			return nil
+		}
+		*st = *m
+		return nil
 	}
+	key, sig, recvExpr := calleeKey(e.info, call)
+	cls, text := e.anchorClauses(call)
 	if sig == nil {
 		e.gap("call of unknown kind %s", e.src(call))
 		e.havocHeap(st)
@@ -82,45 +167,80 @@ func (e *Eng) evalCall(st *State, call *ast.CallExpr) []*Val {
 		}
 		args = append(args, v)
 	}
+	if st.dead {
+		return nil
+	}
+	e.lastArgs = args
+	// anchored and call-site preconditions are evaluated after the arguments, before the call
+	senv := func() map[string]*Val {
+		env := e.specEnvFromState(st)
+		for i, a := range args {
+			env[fmt.Sprintf("arg%d", i)] = a
+		}
+		if recv != nil {
+			env["recv"] = recv
+		}
+		return env
+	}
+	for _, c := range cls {
+		switch c.Kind {
+		case "requires":
+			g := e.evalSpec(st, c.Expr, senv(), e.oldEnv)
+			e.oblige(st, "at", text+" requires "+c.Src, g.T, call.Pos())
+		case "assume":
+			g := e.evalSpec(st, c.Expr, senv(), e.oldEnv)
+			e.assume(st, g.T)
+			e.gap("ASSUME at `%s`: %s", text, c.Src)
+		}
+	}
+	for _, c := range e.callsiteClauses(key) {
+		g := e.evalSpec(st, c.Expr, senv(), e.oldEnv)
+		e.oblige(st, "callsite", shortKey(key)+" "+c.Src, g.T, call.Pos())
+	}
 	// counters
 	st.counters[key] = fmt.Sprintf("(+ %s 1)", counterOf(st, key))
 
-	con := e.contracts[key]
+	con := e.contracts.ByKey[key]
+	if con != nil && con.Trusted {
+		e.trustedUsed[key] = true
+	}
 	var results []*Val
+	if e.retCount == nil {
+		e.retCount = map[string]int{}
+	}
+	e.retCount[key]++
 	for i := 0; i < sig.Results().Len(); i++ {
-		results = append(results, e.freshVal(fmt.Sprintf("ret.%s.%d", shortKey(key), i), sig.Results().At(i).Type()))
+		rv := e.freshVal(fmt.Sprintf("ret.%s.%d", shortKey(key), i), sig.Results().At(i).Type())
+		results = append(results, rv)
+		nm := fmt.Sprintf("ret.%s.%d", shortKey(key), i)
+		if e.retCount[key] > 1 {
+			nm += fmt.Sprintf(".n%d", e.retCount[key])
+		}
+		if len(e.entrySyms) < 200 {
+			e.entrySyms = append(e.entrySyms, paramSym(nm, rv))
+		}
 	}
 	if (con == nil || !(con.NoPanic || con.NoEscape)) && !(e.con != nil && e.con.NoPanic) {
 		// fork an exceptional path
 		ps := st.clone()
 		ps.panicking = true
 		e.havocHeap(ps)
+		e.havocAddrTaken(ps, call)
 		e.exits = append(e.exits, Exit{Kind: ExitPanic, St: ps, Pos: call.Pos()})
 	}
 	// address-taken locals passed as &x may be overwritten by the callee
-	defer func() {
-		for _, a := range call.Args {
-			if u, ok := a.(*ast.UnaryExpr); ok && u.Op == token.AND {
-				if id, ok := u.X.(*ast.Ident); ok {
-					obj := e.info.ObjectOf(id)
-					if _, has := st.vars[obj]; has {
-						st.vars[obj] = e.freshVal("addrtaken."+id.Name, obj.Type())
-					}
-				}
-			}
-		}
-	}()
+	defer e.havocAddrTaken(st, call)
 	if con == nil {
 		// unknown callee: havoc heap, may panic
 		if e.con != nil && e.con.NoPanic {
-			e.oblige(st, "nopanic", "call-unknown "+key, "false", call.Pos())
+			e.oblige(st, "nopanic", "call-unknown "+shortKey(key), "false", call.Pos())
 		}
 		e.gap("call to %s without contract: results and heap havocked", key)
 		e.havocHeap(st)
 		return results
 	}
 	if e.con != nil && e.con.NoPanic && !con.NoPanic {
-		e.oblige(st, "nopanic", "callee-may-panic "+key, "false", call.Pos())
+		e.oblige(st, "nopanic", "callee-may-panic "+shortKey(key), "false", call.Pos())
 	}
 	env := map[string]*Val{}
 	for i := 0; i < sig.Params().Len() && i < len(args); i++ {
@@ -131,13 +251,25 @@ func (e *Eng) evalCall(st *State, call *ast.CallExpr) []*Val {
 		env[name] = args[i]
 	}
 	if recv != nil && sig.Recv() != nil {
-		env[sig.Recv().Name()] = recv
+		if n := sig.Recv().Name(); n != "" {
+			env[n] = recv
+		}
 		env["recv"] = recv
 	}
 	for _, r := range con.Requires {
 		g := e.evalSpec(st, r, env, nil)
 		e.oblige(st, "pre", shortKey(key)+" requires "+r.String(), g.T, call.Pos())
 	}
+	oldEnv := map[string]*Val{}
+	for k, v := range env {
+		oldEnv[k] = v
+	}
+	preState := st
+	if !con.Pure {
+		preState = st.clone()
+		e.havocHeap(st)
+	}
+	_ = preState
 	for i := 0; i < sig.Results().Len(); i++ {
 		name := sig.Results().At(i).Name()
 		if i < len(con.Results) && con.Results[i] != "" {
@@ -148,21 +280,63 @@ func (e *Eng) evalCall(st *State, call *ast.CallExpr) []*Val {
 		}
 		env[fmt.Sprintf("res%d", i)] = results[i]
 	}
-	if !con.Trusted || true {
-		// frame: without modifies clause, contracts in this spike are for heap-pure functions unless marked
+	if len(con.Uses) > 0 {
+		e.includeTheories(con.Uses)
+	}
+	ghostNames := map[string]bool{"panicked": true}
+	for _, g := range con.Ghosts {
+		ghostNames[g.Name] = true
 	}
 	for _, q := range con.Ensures {
-		g := e.evalSpec(st, q, env, env)
+		if specMentions(q, ghostNames) {
+			continue // clauses over the callee's ghost state are not visible to callers
+		}
+		g := e.evalSpec(st, q, env, oldEnv)
 		e.assume(st, g.T)
 	}
 	return results
 }
 
+func (e *Eng) havocAddrTaken(st *State, call *ast.CallExpr) {
+	for _, a := range call.Args {
+		if u, ok := a.(*ast.UnaryExpr); ok && u.Op == token.AND {
+			if id, ok := u.X.(*ast.Ident); ok {
+				obj := e.info.ObjectOf(id)
+				if _, has := st.vars[obj]; has {
+					st.vars[obj] = e.freshVal("addrtaken."+id.Name, obj.Type())
+				}
+			}
+		}
+	}
+}
+
 func shortKey(k string) string {
 	if i := strings.LastIndex(k, "/"); i >= 0 {
-		return k[i+1:]
+		k = k[i+1:]
 	}
+	k = strings.TrimPrefix(k, "(")
+	k = strings.TrimPrefix(k, "*")
+	k = strings.Replace(k, ").", ".", 1)
 	return k
+}
+
+// specMentions reports whether the spec expression mentions one of the names as an identifier, or calls().
+func specMentions(x *SExpr, names map[string]bool) bool {
+	if x == nil {
+		return false
+	}
+	if x.Kind == SIdent && names[x.Name] {
+		return true
+	}
+	if x.Kind == SCall && x.Args[0].Kind == SIdent && (x.Args[0].Name == "calls") {
+		return true
+	}
+	for _, a := range x.Args {
+		if specMentions(a, names) {
+			return true
+		}
+	}
+	return false
 }
 
 func counterOf(st *State, key string) string {
